@@ -1,4 +1,179 @@
+(* C17 - The symbol graph's views stay mutually consistent under any sequence of edits.
+   Only statements here; every proof is [exact lemma].  The model ([step], [run], the
+   queries [q_*]; the check runs them with the identity schedule [sched_id]) is Model/Graph.v - the functions the correspondence check runs against
+   symboldg.SymbolGraph after every op of every generated history.  The model describes the
+   code with the repairs fix-F2 and fix-F15; the behaviour before them is refuted below. *)
 From Gleece Require Import Base.Bytes Model.Graph Proofs.GraphProofs.
-Theorem C17_placeholder : run [] = empty.
-Proof. exact run_nil. Qed.
-Print Assumptions C17_placeholder.
+Local Open Scope N_scope.
+
+(* --- the invariant linking the adjacency indices (deps / revDeps) to the edge index holds
+   after ANY history of AddPrimitive/AddSpecial/AddStruct/AddField/AddEnum/AddAlias/AddEdge/
+   RemoveEdge(kind or nil)/RemoveNode, over any keys, versions and kinds *)
+Theorem C17_invariant : forall sc, sched_ok sc -> forall h : list op, Inv (run sc h).
+Proof. exact run_Inv. Qed.
+
+Theorem C17_invariant_step : forall sc, sched_ok sc -> forall s o, Inv s -> Inv (step sc s o).
+Proof. exact step_Inv. Qed.
+
+(* --- the implementation state refines the plain set-of-nodes / set-of-edges model: after any
+   history its abstraction IS the state of the plain model after the same history *)
+Theorem C17_refines_spec : forall sc, sched_ok sc -> forall h : list op, abs (run sc h) = spec_run h.
+Proof. exact abs_run. Qed.
+
+Theorem C17_refines_spec_step : forall sc, sched_ok sc ->
+  forall s o, Inv s -> abs (step sc s o) = spec_step (abs s) o.
+Proof. exact abs_step. Qed.
+
+(* --- out/in agreement: an edge is listed among its source's edges iff among its target's *)
+Theorem C17_out_in : forall s e, Inv s -> (In e (q_edges s (fb e)) <-> In e (q_edges s (tb e))).
+Proof. exact out_in_agree. Qed.
+
+(* --- every query returns exactly the plain model's answer *)
+Theorem C17_query_exists : forall s k, q_exists s k = sp_has (abs s) (k_base k).
+Proof. exact q_exists_abs. Qed.
+Theorem C17_query_get : forall s k, option_map pnode (q_get s k) = sp_get (abs s) (k_base k).
+Proof. exact q_get_abs. Qed.
+Theorem C17_query_edges : forall s b se,
+  Inv s -> (In se (map proj_edge (q_edges s b)) <-> In se (spq_edges (abs s) b)).
+Proof. exact q_edges_abs. Qed.
+Theorem C17_query_children : forall s b, q_children s b = spq_children (abs s) b.
+Proof. exact q_children_abs. Qed.
+Theorem C17_query_parents : forall s b x,
+  Inv s -> (In x (q_parents s b) <-> In x (spq_parents (abs s) b)).
+Proof. exact q_parents_abs. Qed.
+Theorem C17_query_descendants : forall s b, q_descendants s b = spq_descendants (abs s) b.
+Proof. exact q_descendants_abs. Qed.
+Theorem C17_query_find_by_kind : forall s kd, q_find_by_kind s kd = spq_find_by_kind (abs s) kd.
+Proof. exact q_find_by_kind_abs. Qed.
+(* ... where the plain model's descendants are the nodes reachable by one or more child steps *)
+Theorem C17_descendants_reach : forall sp b x, In x (spq_descendants sp b) <-> Reach sp b x.
+Proof. exact spq_descendants_spec. Qed.
+
+(* --- re-inserting an existing node or edge changes nothing (exact state equality) *)
+Theorem C17_idempotent : forall sc s o,
+  is_simple_add o = true -> step sc (step sc s o) o = step sc s o.
+Proof. exact step_idempotent. Qed.
+
+(* --- RemoveNode: with fuel 1 + |revDeps| the fuelled recursion removes exactly the set X with
+   the properties of [RNPost]: the nodes of X and every edge touching X are removed and nothing
+   else; X contains the node; X is contained in the cascade (only dependants left without any
+   remaining dependency are evicted) and the result is closed (no such dependant survives) *)
+Theorem C17_remove_node_post : forall sc, sched_ok sc -> forall fuel s k,
+  Inv s -> (List.length (rdeps s) < fuel)%nat ->
+  exists X, RNPost s (k_base k) (remove_node sc fuel s k) X.
+Proof. exact remove_node_post. Qed.
+
+(* ... hence it IS the plain model's removal: the node, every touching edge and exactly the
+   least set of orphaned dependants [Casc] *)
+Theorem C17_remove_node : forall sc, sched_ok sc -> forall fuel s k,
+  Inv s -> (List.length (rdeps s) < fuel)%nat ->
+  abs (remove_node sc fuel s k) = sp_remove_node (abs s) (k_base k).
+Proof. exact abs_remove_node. Qed.
+
+Theorem C17_cascade_is_least_fixed_point : forall sp root,
+  NoDup (map sn_base (sp_nodes sp)) -> sp_has sp root = true ->
+  forall x, In x (sp_casc sp root) <-> Casc sp root x.
+Proof. exact sp_casc_spec. Qed.
+
+(* --- Go ranges over the revDeps / edges maps in an order that changes from call to call; a
+   schedule [sc] chooses that order at every RemoveNode call.  All theorems of this file hold for
+   every schedule that visits exactly the snapshot's elements ([sched_ok]); in particular the
+   resulting graph does not depend on the order *)
+Theorem C17_remove_node_order_independent : forall sc1 sc2 fuel s k,
+  sched_ok sc1 -> sched_ok sc2 -> Inv s -> (List.length (rdeps s) < fuel)%nat ->
+  abs (remove_node sc1 fuel s k) = abs (remove_node sc2 fuel s k).
+Proof. exact remove_node_order_independent. Qed.
+
+Theorem C17_order_independent : forall sc1 sc2 h,
+  sched_ok sc1 -> sched_ok sc2 -> abs (run sc1 h) = abs (run sc2 h).
+Proof. exact run_order_independent. Qed.
+
+Theorem C17_identity_schedule_ok : sched_ok sched_id.
+Proof. exact sched_id_ok. Qed.
+
+(* --- a node re-added under another file version replaces the stale one *)
+Theorem C17_newer_version : forall sc s k kd,
+  exists n, get_node (fst (add_node sc s k kd)) (k_base k) = Some n /\ n_ver n = Some (k_ver k).
+Proof. exact add_node_version. Qed.
+
+Theorem C17_newer_version_evicts : forall sc, sched_ok sc -> forall s k kd ex,
+  Inv s -> get_node s (k_base k) = Some ex -> opt_ver_eqb (n_ver ex) (k_ver k) = false ->
+  abs (fst (add_node sc s k kd)) =
+  sp_set_node (sp_remove_node (abs s) (k_base k)) (Sn (k_base k) kd (Some (k_ver k))).
+Proof. exact add_node_replaces. Qed.
+
+(* --- the property oracle evaluated by the check on the implementation's answers (out/in
+   agreement of GetEdges, every query = the plain model's answer, removal removes the node and
+   its edges, re-insertion changes nothing, a re-added node carries the given version) accepts
+   the model's observations after EVERY op of EVERY history over the observed universe *)
+Theorem C17_holds : forall sc, sched_ok sc -> forall U KS h,
+  forallb (in_universe U) h = true ->
+  prop_C17 U KS h (observe_run sc U KS empty h) = true.
+Proof. exact prop_C17_model. Qed.
+
+(* --- the code before fix-F2 / fix-F15 (kept in the model as remove_edge_legacy and
+   q_parents_legacy) violates the statements above; witnesses = the replays *)
+Theorem C17_legacy_remove_edge_refuted :
+  Inv f2_pre /\ ~ Inv f2_legacy /\
+  In f2_edge (q_edges f2_legacy (fb f2_edge)) /\ ~ In f2_edge (q_edges f2_legacy (tb f2_edge)) /\
+  q_children f2_legacy 0 = [1] /\ q_parents f2_legacy 1 = [].
+Proof. exact legacy_remove_edge_refuted. Qed.
+
+Theorem C17_legacy_stale_version_refuted :
+  q_get f15_state kB = Some (Nd kB2 KStruct (Some 2)) /\
+  q_children f15_state 0 = [1] /\ q_edges f15_state 1 = [Ed kA kB ETy 0] /\
+  q_parents_legacy f15_state kB2 = [] /\ q_parents f15_state 1 = [0].
+Proof. exact legacy_parents_refuted. Qed.
+
+Theorem C17_legacy_stale_adjacency_refuted :
+  Inv f15_pre /\ edges (remove_edge_legacy f15_pre kA kB None) = [] /\
+  deps (remove_edge_legacy f15_pre kA kB None) = [(0, kB2)] /\
+  ~ Inv (remove_edge_legacy f15_pre kA kB None) /\ deps (remove_edge f15_pre kA kB None) = [].
+Proof. exact legacy_remove_edge_stale_refuted. Qed.
+
+(* --- non-vacuity: a history with fields, an enum, a self-dependent alias and the eviction
+   cascade of RemoveNode(string); Inv holds of a non-trivial state, the oracle accepts the
+   model's observations and rejects a run in which the removal "did nothing" *)
+Example C17_nonvacuous :
+  map n_base (nodes (run sched_id (removelast demo))) = [0; 1; 5; 2; 3; 4] /\
+  map n_base (nodes (run sched_id demo)) = [4] /\
+  map proj_edge (edges (run sched_id demo)) = [Se 4 1 4] /\
+  Inv (run sched_id demo) /\
+  prop_C17 demo_U demo_KS demo (observe_run sched_id demo_U demo_KS empty demo) = true /\
+  (let os := observe_run sched_id demo_U demo_KS empty demo in
+   prop_C17 demo_U demo_KS demo (removelast os ++ [nth 6 os obs_empty]) = false).
+Proof. exact demo_nonvacuous. Qed.
+
+Example C17_fixed_remove_edge_example :
+  let s := remove_edge f2_pre kA kB (Some ETy) in
+  q_edges s 0 = [f2_edge] /\ dedup edesc_eqb (q_edges s 1) = [f2_edge] /\ q_parents s 1 = [0].
+Proof. exact fixed_remove_edge_example. Qed.
+
+Print Assumptions C17_invariant.
+Print Assumptions C17_invariant_step.
+Print Assumptions C17_refines_spec.
+Print Assumptions C17_refines_spec_step.
+Print Assumptions C17_out_in.
+Print Assumptions C17_query_exists.
+Print Assumptions C17_query_get.
+Print Assumptions C17_query_edges.
+Print Assumptions C17_query_children.
+Print Assumptions C17_query_parents.
+Print Assumptions C17_query_descendants.
+Print Assumptions C17_query_find_by_kind.
+Print Assumptions C17_descendants_reach.
+Print Assumptions C17_idempotent.
+Print Assumptions C17_remove_node_post.
+Print Assumptions C17_remove_node.
+Print Assumptions C17_cascade_is_least_fixed_point.
+Print Assumptions C17_remove_node_order_independent.
+Print Assumptions C17_order_independent.
+Print Assumptions C17_identity_schedule_ok.
+Print Assumptions C17_newer_version.
+Print Assumptions C17_newer_version_evicts.
+Print Assumptions C17_holds.
+Print Assumptions C17_legacy_remove_edge_refuted.
+Print Assumptions C17_legacy_stale_version_refuted.
+Print Assumptions C17_legacy_stale_adjacency_refuted.
+Print Assumptions C17_nonvacuous.
+Print Assumptions C17_fixed_remove_edge_example.
